@@ -37,7 +37,7 @@ func init() {
 		Batches:     func(tier string) int { return 16 },
 		Parallel:    func(tier string) int { return 8 },
 		Require: func(tier string) map[string]int64 {
-			return map[string]int64{"scenarios": 600, "directed_runs": 200, "directed_achieved": 40, "quiescent_checks": 600, "closed_checks": 60, "shared_session_scenarios": 60, "store_faults": 40, "panics_injected": 20, "panicking_write_callbacks": 10, "failing_calls": 40, "stale_aborts": 20, "abandoned_use_sessions": 30, "stream_polls": 60, "stream_churns": 10, "blocked_next_closed_by_peer": 30,
+			return map[string]int64{"scenarios": 600, "directed_runs": 200, "directed_achieved": 40, "quiescent_checks": 600, "closed_checks": 60, "shared_session_scenarios": 60, "store_faults": 40, "panics_injected": 20, "panicking_write_callbacks": 10, "failing_calls": 40, "stale_aborts": 20, "waits_without_deadline": 20, "abandoned_use_sessions": 30, "stream_polls": 60, "stream_churns": 10, "blocked_next_closed_by_peer": 30,
 				"cancelled_contexts": 60, "hook_events": 20000, "interleavings_recorded": 300}
 		},
 		WorkerTimeoutSec: func(tier string) int {
@@ -107,6 +107,18 @@ func c16Gen(r *fw.Rand) c16Scenario {
 			s.Actors = append(s.Actors, steps)
 			s.Session = append(s.Session, a)
 		}
+		return s
+	}
+	if r.Chance(1, 12) {
+		// a writer waits for the slot without any deadline while the holder
+		// keeps it and a third actor closes the engine: the shutdown must wake
+		// the waiter
+		s.Actors = [][]string{
+			{"begin", "read", "read", "next_idle", "read"},
+			{fw.Pick(r, []string{"begin_nodeadline", "sess.start", "begin_nodeadline"})},
+			{"read", fw.Pick(r, []string{"read", "write_deadline"}), "close"},
+		}
+		s.Session = []int{0, 1, 2}
 		return s
 	}
 	if r.Chance(1, 10) {
@@ -850,6 +862,16 @@ func c16Step(c *fw.Ctx, a *c16Actor, st string, client lungo.IClient, engine *lu
 		ok := a.stream.Next(nctx)
 		cancel()
 		note("next=%v err=%v", ok, a.stream.Err())
+	case "begin_nodeadline":
+		// Begin without any deadline: only a free slot or the shutdown ends it
+		c.Count("waits_without_deadline", 1)
+		t, err := engine.Begin(context.Background(), true)
+		note("err=%v", err)
+		if err == nil {
+			engine.Abort(t)
+		}
+	case "next_idle":
+		time.Sleep(30 * time.Millisecond)
 	case "abort_stale":
 		// a late Abort of a transaction that is already finished ("Abort should
 		// be called after finishing any transaction"): it must not touch the
